@@ -10,9 +10,11 @@ META = dict(
     level_text="Theorems (Coq, closed under the global context; exact rational instance, any tuning variables): the textbook dynamic programme kp_opt "
                "returns a complete feasible breaking of minimal total demerits whenever one exists and None otherwise (all paragraphs, all widths, any "
                "admissibility predicate on ratios); every breaking the faithful model of Linebreak returns consists of strictly increasing legal "
-               "breakpoints that skip no forced break and ends at the last item when that is a forced break, for every number structure (hence also "
-               "for binary64), and the reported widths/ratios are those of the returned lines; the goto-START loop restarts with a strictly larger "
-               "tolerance. Optimality of the faithful model itself is REFUTED (witness of DESIGN par. 4, replayed on the Go code on every run: known "
+               "breakpoints that skip no forced break and ends at the last item when that is a forced break, for every number structure with a "
+               "reflexive equality test (any looseness, restarts, overflow); each goto-START restart strictly raises the tolerance and none happens at "
+               "tolerance +Inf; whenever the model's breaking is feasible kp_opt finds one at least as good (partial: the converse under Monotone is "
+               "not proved). Reported widths/ratios, the bound on the number of restarts, feasibility/optimality of the returned breaking, minimal "
+               "relaxation and overflow are NOT theorems: they are judged on every generated case against the exact specification. Optimality of the faithful model itself is REFUTED (witness of DESIGN par. 4, replayed on the Go code on every run: known "
                "finding, inherent to Knuth–Plass deactivation) and holds only under the monotonicity hypothesis (partial). The model is tied to the Go "
                "code by a bit-exact differential run (positions, lines, fitness classes, ratios, widths, demerits, ok flag, panics) and the Go result is "
                "judged directly against the exact specification (legality, forced breaks, widths/ratios, feasibility, kp_opt's optimum, minimal "
@@ -37,12 +39,20 @@ OVFW_MASK = 8192                               # what the overflow-width finding
 PROP_MASK = 32 | 64 | 128 | 256 | MONO_MASK | OVFW_MASK
 
 
+DEFAULT_FINDINGS = {
+    "deactivation-assumes-monotone-line-length": dict(
+        property="C17", key="deactivation-assumes-monotone-line-length", status="open", cond="monotoneb=false", flagmask=MONO_MASK),
+    "overflow-fallback-width": dict(
+        property="C17", key="overflow-fallback-width", status="open", cond="ok=false", flagmask=OVFW_MASK),
+}
+
+
 def run(ctx):
     pr, obligations, discharged = vlib.proof_stage(ctx, ["theories/Corr/C17.vo"])
     if pr["broken"] or not pr["ok"]:
         ctx.violation(dict(kind="proof-obligation-broken", theorem_or_file=pr["broken"], bad_axioms=pr["bad_axioms"], log=pr["log"][-2000:]),
                       "proof obligation no longer checks: %s" % (pr["broken"] or pr["bad_axioms"]), found_input=False)
-    ncases = ctx.n(1500, 60000)
+    ncases = ctx.n(1500, 40000)
     args = ["-seed", str(ctx.seed), "-n", str(ncases)]
     if ctx.replay:
         rp = json.load(open(ctx.replay))
@@ -71,10 +81,13 @@ def run(ctx):
     for k, row in zip(idx, rows):
         rows_by_case[k] = row
 
-    known = {f["key"]: f for f in vlib.known_findings("C17") if f.get("status") == "open"}
-    # the two findings this check knows how to recognise; each only for its exact trigger
-    mono_known = "deactivation-assumes-monotone-line-length" in known or True   # proposal in design/C17.md (lead adds the entry)
-    ovfw_known = "overflow-fallback-width" in known or True
+    # Known findings: entries of known_findings.json (added by the lead from design/C17.md) override these proposals;
+    # an entry whose status is not "open" (e.g. "fixed") switches the masking off, so the defect would be a violation again.
+    known = dict(DEFAULT_FINDINGS)
+    for f in vlib.known_findings("C17"):
+        known[f["key"]] = f
+    mono_known = known.get("deactivation-assumes-monotone-line-length", {}).get("status") == "open"
+    ovfw_known = known.get("overflow-fallback-width", {}).get("status") == "open"
 
     flagcount, stats = {}, dict(in_domain=0, feasible_at_tolerance=0, restarted=0, overflow=0, panics=0, exact_model_agrees=0,
                                 nonmonotone_flagged=0, looseness_nonzero=0, lines=0)
